@@ -3,34 +3,27 @@ import Mathlib.Data.List.Nodup
 /-! # C14: the numbering traversal (`number` / `indexed`) yields an isomorphic indexed graph. -/
 namespace C14
 
-/-- `x` is reachable from `l` through element references (NULL and stubs are not followed). -/
-inductive Reach (h : Graph) : Nat → Nat → Prop
-  | refl (l : Nat) : Reach h l l
-  | step {l k x : Nat} : k ∈ h.refsAt l → Reach h k x → Reach h l x
+/-! ## generic part: any reference function `refs` over `n` locations -/
 
-theorem Reach.tail {h : Graph} {r l k : Nat} (hr : Reach h r l) (hk : k ∈ h.refsAt l) : Reach h r k := by
+/-- `x` is reachable from `l` through references. -/
+inductive ReachOn (refs : Nat → List Nat) : Nat → Nat → Prop
+  | refl (l : Nat) : ReachOn refs l l
+  | step {l k x : Nat} : k ∈ refs l → ReachOn refs k x → ReachOn refs l x
+
+theorem ReachOn.tail {refs : Nat → List Nat} {r l k : Nat} (hr : ReachOn refs r l) (hk : k ∈ refs l) :
+    ReachOn refs r k := by
   induction hr with
   | refl l => exact .step hk (.refl k)
   | step h1 _ ih => exact .step h1 (ih hk)
 
-theorem refsAt_lt {h : Graph} (hc : heapClosed h = true) {l k : Nat} (hk : k ∈ h.refsAt l) :
-    k < h.elems.length := by
-  unfold Graph.refsAt at hk
-  cases he : h.elems[l]? with
-  | none => simp [he] at hk
-  | some e =>
-    simp only [he] at hk
-    simp only [heapClosed, List.all_eq_true, decide_eq_true_eq] at hc
-    exact hc e (List.mem_of_getElem? he) k hk
-
-theorem reach_lt {h : Graph} (hc : heapClosed h = true) {r l : Nat} (hr : r < h.elems.length)
-    (h1 : Reach h r l) : l < h.elems.length := by
+theorem reachOn_lt {refs : Nat → List Nat} {n : Nat} (hc : ∀ l k, k ∈ refs l → k < n) {r l : Nat}
+    (hr : r < n) (h1 : ReachOn refs r l) : l < n := by
   induction h1 with
   | refl l => exact hr
-  | step hk _ ih => exact ih (refsAt_lt hc hk)
+  | step hk _ ih => exact ih (hc _ _ hk)
 
-theorem closed_reach {h : Graph} {S : Nat → Prop} (hcl : ∀ l, S l → ∀ k ∈ h.refsAt l, S k)
-    {a l : Nat} (ha : Reach h a l) : S a → S l := by
+theorem closed_reachOn {refs : Nat → List Nat} {S : Nat → Prop} (hcl : ∀ l, S l → ∀ k ∈ refs l, S k)
+    {a l : Nat} (ha : ReachOn refs a l) : S a → S l := by
   induction ha with
   | refl _ => exact id
   | step hk _ ih => exact fun hs => ih (hcl _ hs _ hk)
@@ -93,23 +86,48 @@ theorem nodup_visitAll (ord ks : List Nat) (hn : ord.Nodup) : (visitAll ord ks).
       subst hb
       intro e; subst e; exact hk ha
 
+/-- an element at a position beyond the old list was appended by this pass. -/
+theorem visitAll_new (ord ks : List Nat) {p x : Nat} (hp : ord.length ≤ p)
+    (hx : (visitAll ord ks)[p]? = some x) : x ∈ ks := by
+  induction ks generalizing ord with
+  | nil =>
+    simp only [visitAll] at hx
+    rw [List.getElem?_eq_none hp] at hx; cases hx
+  | cons k ks ih =>
+    simp only [visitAll] at hx
+    split at hx
+    · exact List.mem_cons_of_mem _ (ih ord hp hx)
+    · rcases Nat.lt_or_ge p (ord ++ [k]).length with h | h
+      · -- p is the position of k
+        have hpe : p = ord.length := by simp at h; omega
+        have hpre := visitAll_prefix (ord ++ [k]) ks
+        obtain ⟨t, ht⟩ := hpre
+        rw [← ht, List.getElem?_append_left h, hpe] at hx
+        simp at hx
+        subst hx; exact List.mem_cons_self ..
+      · exact List.mem_cons_of_mem _ (ih _ h hx)
+
 /-! ## the outer loop -/
 
-structure Inv (h : Graph) (root i : Nat) (ord : List Nat) : Prop where
+structure InvOn (refs : Nat → List Nat) (root i : Nat) (ord : List Nat) : Prop where
   nodup : ord.Nodup
-  reach : ∀ l ∈ ord, Reach h root l
+  reach : ∀ l ∈ ord, ReachOn refs root l
   head : ord.head? = some root
-  closedPre : ∀ j, j < i → ∀ l, ord[j]? = some l → ∀ k ∈ h.refsAt l, k ∈ ord
+  closedPre : ∀ j, j < i → ∀ l, ord[j]? = some l → ∀ k ∈ refs l, k ∈ ord
   le : i ≤ ord.length
+  /-- every element but the first was appended while an earlier one was processed -/
+  parent : ∀ p x, 0 < p → ord[p]? = some x → ∃ q y, q < p ∧ ord[q]? = some y ∧ x ∈ refs y
 
 /-- What the traversal guarantees about `elements`. -/
-structure Numbering (h : Graph) (root : Nat) (ord : List Nat) : Prop where
+structure NumberingOn (refs : Nat → List Nat) (root : Nat) (ord : List Nat) : Prop where
   /-- every element gets at most one index -/
   nodup : ord.Nodup
   /-- the root is element 0 -/
   head : ord.head? = some root
   /-- exactly the reachable elements are exported -/
-  mem_iff : ∀ l, l ∈ ord ↔ Reach h root l
+  mem_iff : ∀ l, l ∈ ord ↔ ReachOn refs root l
+  /-- every element but the first is referenced by an element with a smaller index -/
+  parent : ∀ p x, 0 < p → ord[p]? = some x → ∃ q y, q < p ∧ ord[q]? = some y ∧ x ∈ refs y
 
 theorem prefix_getElem? {a b : List Nat} (hp : a <+: b) {j l : Nat} (hj : a[j]? = some l) :
     b[j]? = some l := by
@@ -120,24 +138,24 @@ theorem prefix_getElem? {a b : List Nat} (hp : a <+: b) {j l : Nat} (hj : a[j]? 
     · rw [List.getElem?_eq_none h] at hj; cases hj
   rw [List.getElem?_append_left hlt]; exact hj
 
-theorem bfs_numbering (h : Graph) (hc : heapClosed h = true) (root : Nat) (hr : root < h.elems.length) :
-    ∀ (f i : Nat) (ord : List Nat), Inv h root i ord → h.elems.length + 1 ≤ f + i →
-      Numbering h root (bfs h f i ord) := by
+theorem bfsOn_numbering (refs : Nat → List Nat) (n : Nat) (hc : ∀ l k, k ∈ refs l → k < n) (root : Nat)
+    (hr : root < n) :
+    ∀ (f i : Nat) (ord : List Nat), InvOn refs root i ord → n + 1 ≤ f + i →
+      NumberingOn refs root (bfsOn refs f i ord) := by
   intro f
   induction f with
   | zero =>
     intro i ord inv hf
-    -- impossible: i ≤ ord.length ≤ number of locations
-    have hsub : ord ⊆ List.range h.elems.length := by
+    have hsub : ord ⊆ List.range n := by
       intro l hl
-      exact List.mem_range.mpr (reach_lt hc hr (inv.reach l hl))
+      exact List.mem_range.mpr (reachOn_lt hc hr (inv.reach l hl))
     have := List.Nodup.length_le_of_subset inv.nodup hsub
     rw [List.length_range] at this
     have := inv.le
     omega
   | succ f ih =>
     intro i ord inv hf
-    simp only [bfs]
+    simp only [bfsOn]
     cases hget : ord[i]? with
     | none =>
       simp only
@@ -145,7 +163,7 @@ theorem bfs_numbering (h : Graph) (hc : heapClosed h = true) (root : Nat) (hr : 
         have := List.getElem?_eq_none_iff.mp hget
         have := inv.le
         omega
-      refine ⟨inv.nodup, inv.head, fun l => ⟨inv.reach l, ?_⟩⟩
+      refine ⟨inv.nodup, inv.head, fun l => ⟨inv.reach l, ?_⟩, inv.parent⟩
       intro hrl
       have hroot : root ∈ ord := by
         cases ord with
@@ -154,22 +172,25 @@ theorem bfs_numbering (h : Graph) (hc : heapClosed h = true) (root : Nat) (hr : 
           have := inv.head
           simp only [List.head?_cons, Option.some.injEq] at this
           subst this; exact List.mem_cons_self ..
-      -- the set `ord` is closed under references and contains the root
-      have hclosed : ∀ l ∈ ord, ∀ k ∈ h.refsAt l, k ∈ ord := by
+      have hclosed : ∀ l ∈ ord, ∀ k ∈ refs l, k ∈ ord := by
         intro l hl k hk
         obtain ⟨j, hj, hjl⟩ := List.mem_iff_getElem.mp hl
         exact inv.closedPre j (by omega) l (by rw [List.getElem?_eq_getElem hj, hjl]) k hk
-      exact closed_reach (S := fun x => x ∈ ord) hclosed hrl hroot
+      exact closed_reachOn (S := fun x => x ∈ ord) hclosed hrl hroot
     | some loc =>
       simp only
       apply ih (i + 1) _ _ (by omega)
-      have hpre := visitAll_prefix ord (h.refsAt loc)
+      have hpre := visitAll_prefix ord (refs loc)
       have hloc : loc ∈ ord := List.mem_of_getElem? hget
-      refine ⟨nodup_visitAll _ _ inv.nodup, ?_, ?_, ?_, ?_⟩
+      have h1 : i < ord.length := by
+        rcases Nat.lt_or_ge i ord.length with h | h
+        · exact h
+        · rw [List.getElem?_eq_none h] at hget; cases hget
+      refine ⟨nodup_visitAll _ _ inv.nodup, ?_, ?_, ?_, ?_, ?_⟩
       · intro l hl
-        rcases (mem_visitAll _ _ _).mp hl with h1 | h1
-        · exact inv.reach l h1
-        · exact (inv.reach loc hloc).tail h1
+        rcases (mem_visitAll _ _ _).mp hl with h2 | h2
+        · exact inv.reach l h2
+        · exact (inv.reach loc hloc).tail h2
       · obtain ⟨t, ht⟩ := hpre
         rw [← ht]
         cases ord with
@@ -177,8 +198,7 @@ theorem bfs_numbering (h : Graph) (hc : heapClosed h = true) (root : Nat) (hr : 
         | cons a t' => simpa using inv.head
       · intro j hj l hjl k hk
         rcases Nat.lt_or_ge j i with hlt | hge
-        · -- an earlier position: unchanged by the prefix property
-          have hj' : j < ord.length := by have := inv.le; omega
+        · have hj' : j < ord.length := by omega
           have : ord[j]? = some l := by
             obtain ⟨t, ht⟩ := hpre
             rw [← ht, List.getElem?_append_left hj'] at hjl; exact hjl
@@ -190,19 +210,54 @@ theorem bfs_numbering (h : Graph) (hc : heapClosed h = true) (root : Nat) (hr : 
             rw [this] at hjl; exact (Option.some.inj hjl).symm
           subst this
           exact (mem_visitAll _ _ _).mpr (.inr hk)
-      · have h1 : i < ord.length := by
-          rcases Nat.lt_or_ge i ord.length with h | h
-          · exact h
-          · rw [List.getElem?_eq_none h] at hget; cases hget
-        have := hpre.length_le
+      · have := hpre.length_le
         omega
+      · intro p x hp hpx
+        rcases Nat.lt_or_ge p ord.length with hlt | hge
+        · -- an old position
+          have hold : ord[p]? = some x := by
+            obtain ⟨t, ht⟩ := hpre
+            rw [← ht, List.getElem?_append_left hlt] at hpx; exact hpx
+          obtain ⟨q, y, hq, hqy, hxy⟩ := inv.parent p x hp hold
+          exact ⟨q, y, hq, prefix_getElem? hpre hqy, hxy⟩
+        · -- appended while `loc` (position i < p) was processed
+          exact ⟨i, loc, by omega, prefix_getElem? hpre hget, visitAll_new ord (refs loc) hge hpx⟩
+
+theorem numberOn_numbering (refs : Nat → List Nat) (n : Nat) (hc : ∀ l k, k ∈ refs l → k < n) (root : Nat)
+    (hr : root < n) : NumberingOn refs root (numberOn refs n root) := by
+  unfold numberOn
+  apply bfsOn_numbering refs n hc root hr _ 0 [root] _ (by omega)
+  refine ⟨List.nodup_singleton _, fun l hl => by simp at hl; subst hl; exact .refl _, rfl,
+    fun j hj => by omega, by simp, ?_⟩
+  intro p x hp hpx
+  cases p with
+  | zero => omega
+  | succ p => simp at hpx
+
+/-! ## instance: the binary-value graph -/
+
+/-- `x` is reachable from `l` through element references (NULL and stubs are not followed). -/
+abbrev Reach (h : Graph) : Nat → Nat → Prop := ReachOn h.refsAt
+
+abbrev Numbering (h : Graph) (root : Nat) (ord : List Nat) : Prop := NumberingOn h.refsAt root ord
+
+theorem refsAt_lt {h : Graph} (hc : heapClosed h = true) {l k : Nat} (hk : k ∈ h.refsAt l) :
+    k < h.elems.length := by
+  unfold Graph.refsAt at hk
+  cases he : h.elems[l]? with
+  | none => simp [he] at hk
+  | some e =>
+    simp only [he] at hk
+    simp only [heapClosed, List.all_eq_true, decide_eq_true_eq] at hc
+    exact hc e (List.mem_of_getElem? he) k hk
+
+theorem reach_lt {h : Graph} (hc : heapClosed h = true) {r l : Nat} (hr : r < h.elems.length)
+    (h1 : Reach h r l) : l < h.elems.length :=
+  reachOn_lt (fun _ _ hk => refsAt_lt hc hk) hr h1
 
 theorem number_numbering (h : Graph) (hc : heapClosed h = true) (root : Nat)
-    (hr : root < h.elems.length) : Numbering h root (number h root) := by
-  unfold number
-  apply bfs_numbering h hc root hr _ 0 [root] _ (by omega)
-  exact ⟨List.nodup_singleton _, fun l hl => by simp at hl; subst hl; exact .refl _, rfl,
-    fun j hj => by omega, by simp⟩
+    (hr : root < h.elems.length) : Numbering h root (number h root) :=
+  numberOn_numbering h.refsAt h.elems.length (fun _ _ hk => refsAt_lt hc hk) root hr
 
 /-! ## the indexed graph -/
 
